@@ -1367,6 +1367,7 @@ def shortest_int(data: np.ndarray, percent: float=50) -> tuple[float, float]:
         data = data.astype(np.result_type(data, float))  # integer samples: the differences below must not wrap around
         lag = int(len(data) * percent/100)
         diff = diff_lag(data, lag)
-        i = np.where(np.abs(diff - np.min(diff)) < 1e-10)[0]
+        dmin = np.min(diff)
+        i = np.where(np.abs(diff - dmin) <= 1e-10 * np.abs(dmin))[0]  # ties up to a RELATIVE tolerance: the choice must not depend on the unit of `data`
         i = i[len(i)//2]  # among tied minima take the central one (the mean index need not be a minimum)
         return np.array((data[i], data[i + lag]))
